@@ -317,6 +317,117 @@ Definition start_activity (e : envst) (neg_ok : bool) (rn : option N) (rest_ok :
 Definition asks_number (e : envst) (neg_ok : bool) : bool :=
   (e_state e =? E_CONFIGURED) && neg_ok.
 
+Fixpoint nseq (k : nat) (from : N) : list N :=
+  match k with O => [] | S k' => from :: nseq k' (N.succ from) end.
+
+(* ---------- histories: sequences of requests on several environments sharing the counter ---------- *)
+(* What environment.go does with currentRunNumber: assigned in before_event of START_ACTIVITY
+   (after the hooks of negative weight, from a FRESH call of NewRunNumber, on every attempt),
+   cleared in after_event of STOP_ACTIVITY and by StartActivityTransition.do when tasks fail to
+   start; a START cancelled later (hook of weight >= 0, leave_CONFIGURED hook, any other
+   transition body) and GO_ERROR leave it as it is.
+   events: 0 DEPLOY 1 CONFIGURE 2 RESET 3 START_ACTIVITY 4 STOP_ACTIVITY 5 EXIT 6 GO_ERROR 7 RECOVER *)
+Definition EV_STOP : N := 4.
+Definition fsm_dst (ev st : N) : option N :=
+  if ev =? 0 then (if st =? 0 then Some 1 else None) else
+  if ev =? 1 then (if st =? 1 then Some 2 else None) else
+  if ev =? 2 then (if st =? 2 then Some 1 else None) else
+  if ev =? 3 then (if st =? 2 then Some 3 else None) else
+  if ev =? 4 then (if st =? 3 then Some 2 else None) else
+  if ev =? 5 then (if st <=? 2 then Some 4 else None) else
+  if ev =? 6 then (if st <=? 3 then Some 5 else None) else
+  if ev =? 7 then (if st =? 5 then Some 1 else None) else None.
+
+(* what happens at the counter while one START attempt runs: requests of the attempt itself
+   (mode 0 served, 1 failed, 2 reply lost, 3 dies) and anything of anybody else (other cores'
+   callers, foreign writers).  The attempt at position k of the history is caller 2k of the
+   counter, another caller j is caller 2j+1: an attempt is a fresh call, it shares its identity
+   with nobody. *)
+Inductive astep := AOwn (mode : N) | AOther (x : step).
+Definition aid (k : N) : N := 2 * k.
+Definition oid (j : N) : N := 2 * j + 1.
+Definition own_step (c mode : N) : step :=
+  if mode =? 0 then SServe c else if mode =? 1 then SFail c else if mode =? 2 then SLost c else SCrash c.
+Definition relabel (x : step) : step :=
+  match x with
+  | SServe j => SServe (oid j) | SFail j => SFail (oid j)
+  | SLost j => SLost (oid j) | SCrash j => SCrash (oid j)
+  | SPut v => SPut v | SDel => SDel
+  end.
+Definition to_step (k : N) (a : astep) : step :=
+  match a with AOwn m => own_step (aid k) m | AOther x => relabel x end.
+Definition not_own (a : astep) : bool := match a with AOwn _ => false | AOther _ => true end.
+
+Inductive hop :=
+(* START_ACTIVITY on environment [env].  [rest]: 0 the transition goes through; 1 it is cancelled
+   after the number was assigned (hook of weight >= 0, leave_CONFIGURED hook, transition body);
+   2 it is cancelled by tasks failing to start (the number is cleared) *)
+| HStart (env : N) (neg_ok : bool) (rest : N) (sched : list astep)
+(* any other event; [done] = not cancelled by a hook or by the transition body *)
+| HOther (env : N) (ev : N) (done : bool).
+
+Record hres := mkRes { hr_err : bool; hr_state : N; hr_rn : N;
+                       hr_seen : option N (* run number shown to the hooks of weight >= 0 *) }.
+Record hstate := mkH { hs_ctr : state; hs_envs : list (N * envst) }.
+Definition eget (es : list (N * envst)) (i : N) : envst :=
+  match assocN i es with Some e => e | None => mkEnv 0 0 end.
+
+(* the steps that really happen at the counter during the operation at position k *)
+Definition heff_op (h : hstate) (k : N) (o : hop) : list step :=
+  match o with
+  | HStart ei neg_ok _ sched =>
+      if asks_number (eget (hs_envs h) ei) neg_ok then map (to_step k) sched
+      else map (to_step k) (filter not_own sched)     (* no request of its own at all *)
+  | HOther _ _ _ => []
+  end.
+
+Definition hstep (h : hstate) (k : N) (o : hop) : hstate * hres :=
+  let st := run (hs_ctr h) (heff_op h k o) in
+  match o with
+  | HStart ei neg_ok rest _ =>
+      let e := eget (hs_envs h) ei in
+      if asks_number e neg_ok then
+        match result st (aid k) with
+        | None => (mkH st (hs_envs h), mkRes true (e_state e) (e_rn e) None)
+        | Some n =>
+            let e' := if rest =? 0 then mkEnv E_RUNNING n
+                      else if rest =? 1 then mkEnv E_CONFIGURED n else mkEnv E_CONFIGURED 0 in
+            (mkH st ((ei, e') :: hs_envs h),
+             mkRes (negb (rest =? 0)) (e_state e') (e_rn e') (Some n))
+        end
+      else (mkH st (hs_envs h), mkRes true (e_state e) (e_rn e) None)
+  | HOther ei ev done =>
+      let e := eget (hs_envs h) ei in
+      match fsm_dst ev (e_state e) with
+      | None => (mkH st (hs_envs h), mkRes true (e_state e) (e_rn e) None)
+      | Some d =>
+          if done then
+            let e' := mkEnv d (if ev =? EV_STOP then 0 else e_rn e) in
+            (mkH st ((ei, e') :: hs_envs h), mkRes false d (e_rn e') None)
+          else (mkH st (hs_envs h), mkRes true (e_state e) (e_rn e) None)
+      end
+  end.
+
+Fixpoint hrun_st (h : hstate) (k : N) (ops : list hop) : hstate :=
+  match ops with [] => h | o :: r => hrun_st (fst (hstep h k o)) (N.succ k) r end.
+Fixpoint hrun_res (h : hstate) (k : N) (ops : list hop) : list hres :=
+  match ops with
+  | [] => []
+  | o :: r => snd (hstep h k o) :: hrun_res (fst (hstep h k o)) (N.succ k) r
+  end.
+(* all steps at the counter, in order *)
+Fixpoint heff (h : hstate) (k : N) (ops : list hop) : list step :=
+  match ops with
+  | [] => []
+  | o :: r => heff_op h k o ++ heff (fst (hstep h k o)) (N.succ k) r
+  end.
+(* the numbers under which the successive START attempts went on, in the order of the attempts *)
+Definition hnums (rs : list hres) : list N :=
+  flat_map (fun r => match hr_seen r with Some n => [n] | None => [] end) rs.
+Definition einit (states : list N) : list (N * envst) :=
+  combine (nseq (length states) 0) (map (fun s => mkEnv s 0) states).
+Definition hinit (s0 : store) (states : list N) : hstate := mkH (init s0) (einit states).
+
 (* ---------- correspondence cases ---------- *)
 Inductive cres := RPending | RNum (n : N) | RErr | RDead.
 
@@ -351,9 +462,6 @@ Definition lentry_eqb (a b : lentry) : bool :=
   | _, _ => false
   end.
 
-Fixpoint nseq (k : nat) (from : N) : list N :=
-  match k with O => [] | S k' => from :: nseq k' (N.succ from) end.
-
 Inductive c07_case :=
 (* k callers, store initially absent with raft index clock0, schedule;
    observed: request log (chronological), per-caller results, final key *)
@@ -367,7 +475,13 @@ Inductive c07_case :=
 | CFileSerial (file0 : option str) (k : N) (ores : list (option N)) (ofile : option str)
 (* file backend under concurrent calls, every round from a file "0": number of duplicates seen
    among returned numbers, number of failed calls, the file after the last round *)
-| CFileStress (goroutines calls : N) (dups errs : N) (ofile : option str).
+| CFileStress (goroutines calls : N) (dups errs : N) (ofile : option str)
+(* a history of requests on the environments with the given initial states (all sharing the
+   counter, store initially absent with raft index clock0), [nother] other callers;
+   observed: request log, per operation (error?, state, current run number, run number shown to
+   the hooks of weight >= 0 of before_START_ACTIVITY), results of the other callers, final key *)
+| CHist (clock0 : N) (states : list N) (nother : N) (ops : list hop)
+        (olog : list lentry) (ores : list hres) (oothers : list cres) (okv : option (str * N)).
 
 Definition model_sched (clock0 k : N) (sched : list step) :=
   let st := run (init (mkStore None clock0)) sched in
@@ -376,6 +490,10 @@ Definition model_sched (clock0 k : N) (sched : list step) :=
 
 Definition fres (st : fstate) (i : N) : option N :=
   match fget (f_callers st) i with FDone r => r | _ => None end.
+
+Definition hres_eqb (a b : hres) : bool :=
+  Bool.eqb (hr_err a) (hr_err b) && (hr_state a =? hr_state b) && (hr_rn a =? hr_rn b) &&
+  option_eqb N.eqb (hr_seen a) (hr_seen b).
 
 Definition corr07 (c : c07_case) : bool :=
   match c with
@@ -405,6 +523,13 @@ Definition corr07 (c : c07_case) : bool :=
       (* under the mutex every schedule of g*k calls on "0" ends with no failed call and the
          counter at g*k (C07_file_backend_dense) *)
       (errs =? 0) && (fcur ofile =? g * k)
+  | CHist clock0 states nother ops olog ores oothers okv =>
+      let h0 := hinit (mkStore None clock0) states in
+      let st := hs_ctr (hrun_st h0 0 ops) in
+      list_eqb lentry_eqb (rev (s_log st)) olog &&
+      list_eqb hres_eqb (hrun_res h0 0 ops) ores &&
+      list_eqb cres_eqb (map (fun j => cres_of (get (s_callers st) (oid j))) (nseq (N.to_nat nother) 0)) oothers &&
+      kv_eqb (st_kv (s_store st)) okv
   end.
 
 (* ---------- the property evaluated on what the implementation did ---------- *)
@@ -502,6 +627,62 @@ Definition obtained (olog : list lentry) : option N :=
   | _ => None
   end.
 
+(* ----- histories.  9: a START attempt went on (its hooks of weight >= 0 ran, or it succeeded)
+   without any request of its own at the counter: the number was not drawn for this attempt;
+   4: it went on although its draw failed, or a cancelled attempt changed state / run number;
+   8: it ran under another number than the one it drew; 10: the numbers of successive attempts
+   (all environments) are not strictly increasing although the other writers behaved *)
+Definition own_put (c : N) (l : list lentry) : option N :=
+  match filter (fun e => match e with LPut j _ _ 0 true => j =? c | _ => false end) l with
+  | LPut _ _ body _ _ :: _ => parse_u32 body
+  | _ => None
+  end.
+Definition has_request (c : N) (l : list lentry) : bool :=
+  existsb (fun e => match e with LGet j _ _ _ => j =? c | LPut j _ _ _ _ => j =? c | _ => false end) l.
+
+Fixpoint mon_ops (k : N) (envs : list (N * envst)) (ops : list hop) (ores : list hres)
+                 (olog : list lentry) : N :=
+  match ops, ores with
+  | o :: r, x :: xs =>
+      let ei := match o with HStart ei _ _ _ => ei | HOther ei _ _ => ei end in
+      let e := eget envs ei in
+      let c := match o with
+               | HStart _ _ _ _ =>
+                   match hr_seen x with
+                   | Some n =>
+                       match own_put (aid k) olog with
+                       | Some m => if (n =? m) && (hr_err x || (hr_rn x =? m)) then 0 else 8
+                       | None => if has_request (aid k) olog then 4 else 9
+                       end
+                   | None => if hr_err x && (hr_state x =? e_state e) && (hr_rn x =? e_rn e)
+                             then 0 else 4
+                   end
+               | HOther _ _ _ => 0
+               end in
+      if c =? 0 then mon_ops (N.succ k) ((ei, mkEnv (hr_state x) (hr_rn x)) :: envs) r xs olog
+      else c
+  | _, _ => 0
+  end.
+
+Definition attempt_cres (x : hres) : cres :=
+  match hr_seen x with Some n => RNum n | None => if hr_err x then RErr else RPending end.
+(* caller 2k is the operation at position k, caller 2j+1 the other caller j *)
+Definition hist_cres (ores : list hres) (oothers : list cres) : list cres :=
+  map (fun i => if N.even i then nth (N.to_nat (i / 2)) (map attempt_cres ores) RPending
+                else nth (N.to_nat (i / 2)) oothers RPending)
+      (nseq (2 * (length ores + length oothers)) 0).
+
+Fixpoint incr_list (lo : N) (l : list N) : bool :=
+  match l with [] => true | n :: r => (lo <? n) && incr_list n r end.
+
+Definition mon_hist (states : list N) (ops : list hop) (olog : list lentry) (ores : list hres)
+                    (oothers : list cres) : N :=
+  let c := mon_log (hist_cres ores oothers) olog None false in
+  if negb (c =? 0) then c else
+  let c := mon_ops 0 (einit states) ops ores olog in
+  if negb (c =? 0) then c else
+  if negb (envbad_log olog) && negb (incr_list 0 (hnums ores)) then 10 else 0.
+
 Definition mon07 (c : c07_case) : N :=
   match c with
   | CSched _ _ _ olog ores _ => mon_sched olog ores
@@ -518,6 +699,7 @@ Definition mon07 (c : c07_case) : N :=
       if incr_from (fcur file0) ores then 0
       else if existsb (fun r => match r with Some 0 => true | _ => false end) ores then 5 else 7
   | CFileStress _ _ dups _ _ => if dups =? 0 then 0 else 6
+  | CHist _ states _ ops olog ores oothers _ => mon_hist states ops olog ores oothers
   end.
 
 (* ---------- which decision points a case went through (bit mask) ---------- *)
@@ -540,6 +722,16 @@ Definition tag07 (c : c07_case) : N :=
            + bit (existsb (fun r => match r with None => true | _ => false end) ores) 2
            + bit ((fcur file0 =? max_u32) || (fcur file0 <? max_u32) && (max_u32 <? fcur file0 + Nlen ores)) 4 (* a call found the counter exhausted *)
   | CFileStress _ _ dups _ _ => 3000 + bit (negb (dups =? 0)) 1
+  | CHist _ states _ ops olog ores _ _ =>
+      4000 + bit (2 <=? Nlen (hnums ores)) 1                        (* at least two attempts went on *)
+           + bit (existsb (fun x => match hr_seen x with Some _ => hr_err x | None => false end) ores) 2
+                                                                    (* an attempt cancelled after its draw *)
+           + bit (existsb (fun e => match e with LPut _ _ _ 0 false => true
+                                    | LPut _ _ _ m _ => negb (m =? 0) | LGet _ _ m _ => negb (m =? 0)
+                                    | _ => false end) olog) 4       (* a refused or failed request *)
+           + bit (existsb (fun e => match e with LFPut _ => true | LFDel => true | _ => false end) olog) 8
+           + bit (existsb (fun o => match o with HOther _ 6 true => true | _ => false end) ops) 16  (* GO_ERROR *)
+           + bit (2 <=? Nlen states) 32
   end.
 
 Definition report07 := report corr07 mon07 tag07.
